@@ -8,6 +8,7 @@
 #ifndef HX_COMMON_H_
 #define HX_COMMON_H_
 
+#include <sys/time.h>
 #include <sys/socket.h>
 #include <sys/un.h>
 
@@ -146,11 +147,19 @@ hx_watchdog(unsigned seconds)
 {
 	static int installed;
 
+	struct itimerval it;
+
+	/*
+	 * CPU time of this process, not wall-clock time: a parser that does not
+	 * terminate burns CPU, while a loaded machine must not raise an alarm.
+	 */
 	if (!installed) {
-		signal(SIGALRM, hx_alarm);
+		signal(SIGPROF, hx_alarm);
 		installed = 1;
 	}
-	alarm(seconds);
+	memset(&it, 0, sizeof(it));
+	it.it_value.tv_sec = (time_t)seconds;
+	setitimer(ITIMER_PROF, &it, NULL);
 }
 
 /* ------------------------------------------------------------------ */
